@@ -3,6 +3,9 @@ import GB.C01.Status
 import GB.Generated.Facts
 import GB.C02.WsEpilogue
 import GB.C02.Stable
+import GB.C02.WithCtx
+import GB.C02.CloseOnce
+import GB.C02.Paths
 /-
   C02 — every bridged call terminates promptly and releases its resources.
 
@@ -248,4 +251,251 @@ theorem C02_nonaware_hangs :
 theorem C02_aware_returns :
     (GB.LTS.run (step { cs := true, ss := true, incAware := true, outAware := true }) (init Nat Nat)
       (C02_d1_trace ++ [.incRecvRet (.err 1), .ret none])).map isDone = some true := by
+  decide
+
+/-! ### Round 5 (a): the `withCtx` helper goroutines are inside the model (GB/C02/WithCtx.lean)
+
+  One direction (Recv or Send) of one stream adapter: caller, helper goroutines, result channels, the context, and
+  `released` (handler returned / stream context cancelled / connection closed). ENVIRONMENT LAW, explicit in
+  `GB.WCtx.own`: the blocked library primitive returns once `released` holds. Everything below is over ALL runs:
+  any caller (any number of calls and abandoned helpers), any interleaving. -/
+
+/-- No helper ever blocks on its result channel: capacity ≥ 1 and one channel per call ⇒ whenever a helper's
+    primitive has returned, its send `errChan <- f()` is enabled (so the goroutine exits: no leak once the
+    primitive returns). -/
+theorem C02_withctx_never_blocks (p : GB.WCtx.Params) (hf : p.fresh = true) (hc : 1 ≤ p.cap) (s : GB.WCtx.State)
+    (hr : GB.WCtx.Reachable p s) (i : Nat) (hm : (i, true) ∈ s.helpers) :
+    (GB.WCtx.step p s (.deliver i)).isSome = true :=
+  GB.WCtx.deliver_enabled p hf hc s (GB.WCtx.inv_reach p hf s hr) i hm
+
+/-- No cross-talk: every call that returned a result returned the result of the primitive invocation IT started
+    (`got` = (call, tag of the invocation that produced the value)); a result abandoned by an earlier call can never
+    be delivered into a later one. Buffered results belong to calls that are over and whose helper has exited. -/
+theorem C02_withctx_no_crosstalk (p : GB.WCtx.Params) (hf : p.fresh = true) (s : GB.WCtx.State)
+    (hr : GB.WCtx.Reachable p s) :
+    (∀ g ∈ s.got, g.1 = g.2) ∧ (∀ b ∈ s.bufs, b.1 = b.2 ∧ ∀ h ∈ s.helpers, h.1 ≠ b.1) := by
+  have hi := GB.WCtx.inv_reach p hf s hr
+  exact ⟨hi.got, fun b hb => ⟨(hi.buf b hb).1, (hi.buf b hb).2.2⟩⟩
+
+/-- At most one helper per direction is outstanding, given Forward's discipline (`stopAfterCtx`: no further call in
+    a direction after a ctx error there — `C02_no_call_after_error`): while a call is in progress the only helper
+    is its own, and between calls there is none unless the direction has been abandoned. -/
+theorem C02_withctx_one_outstanding (p : GB.WCtx.Params) (hf : p.fresh = true) (hst : p.stopAfterCtx = true)
+    (s : GB.WCtx.State) (hr : GB.WCtx.Reachable p s) :
+    s.helpers.length ≤ 1 ∧ (∀ k, s.caller = some k → ∀ h ∈ s.helpers, h.1 = k) ∧
+    (s.caller = none → s.stopped = false → s.helpers = []) := by
+  have hd := GB.WCtx.dinv_reach p hf hst s hr
+  exact ⟨hd.le1, hd.cur, hd.idle⟩
+
+/-- Release: once the handler has returned / the stream was closed, the helpers drain — a schedule of at most
+    2·(outstanding helpers) helper steps, each one an OWN step (environment law for `primRet`, `never_blocks` for
+    the send), leads to a state without helper goroutines. -/
+theorem C02_withctx_drains (p : GB.WCtx.Params) (hf : p.fresh = true) (hc : 1 ≤ p.cap) (s : GB.WCtx.State)
+    (hr : GB.WCtx.Reachable p s) (hrel : s.released = true) :
+    ∃ ls s', GB.LTS.run (GB.WCtx.step p) s ls = some s' ∧ s'.helpers = [] ∧ ls.length ≤ 2 * s.helpers.length ∧
+      ls.all GB.WCtx.helperLabel = true :=
+  GB.WCtx.drain p hf hc (2 * s.helpers.length) s (GB.WCtx.inv_reach p hf s hr) hrel (GB.WCtx.hrank_le s)
+
+/-- …and in EVERY interleaving without a new call: helper steps taken + work left ≤ work there was, and while a
+    helper is left in a released state an own helper step is enabled (rank argument, all schedules). -/
+theorem C02_withctx_release_all_schedules (p : GB.WCtx.Params) (hf : p.fresh = true) (hc : 1 ≤ p.cap)
+    (s : GB.WCtx.State) (hr : GB.WCtx.Reachable p s) (hrel : s.released = true) :
+    (∀ ls s', GB.LTS.run (GB.WCtx.step p) s ls = some s' → ls.all (· != .call) = true →
+        (ls.filter GB.WCtx.helperLabel).length + GB.WCtx.hrank s' ≤ GB.WCtx.hrank s) ∧
+    (s.helpers ≠ [] → ∃ l s', GB.WCtx.helperLabel l = true ∧ GB.WCtx.own s l = true ∧
+        GB.WCtx.step p s l = some s' ∧ GB.WCtx.hrank s' < GB.WCtx.hrank s) := by
+  refine ⟨fun ls s' h ha => GB.WCtx.bounded_any_schedule p ls s s' h ha, fun hne => ?_⟩
+  obtain ⟨l, s', h1, h2, h3⟩ := GB.WCtx.helper_progress p hf hc s (GB.WCtx.inv_reach p hf s hr) hrel hne
+  exact ⟨l, s', h1, h2, h3, GB.WCtx.helper_step_decreases p s s' l h1 h3⟩
+
+/-- `Close` = `closeFunc` = sync.OnceFunc(cancel): however often Close is called (Forward's deferred Close, the
+    ctx.Done branch of every abandoned Recv/Send), the stream's cancel func runs at most once, and it has run iff
+    the stream is released. -/
+theorem C02_withctx_cancel_once (p : GB.WCtx.Params) (hf : p.fresh = true) (s : GB.WCtx.State)
+    (hr : GB.WCtx.Reachable p s) : s.cancels ≤ 1 ∧ (s.released = true ↔ s.cancels = 1) :=
+  (GB.WCtx.inv_reach p hf s hr).once
+
+/-- AdaptedClientStream: a Recv/Send that is abandoned because the context is done closes the stream itself. -/
+theorem C02_withctx_close_on_done (p : GB.WCtx.Params) (hc : p.closeOnDone = true) (s s' : GB.WCtx.State)
+    (hs : GB.WCtx.step p s .takeCtx = some s') : s'.released = true := by
+  simp only [GB.WCtx.step] at hs
+  split at hs
+  · split at hs <;> simp at hs
+    subst hs; simp [hc, GB.WCtx.doClose]
+  · simp at hs
+
+/-- Negative witness (seeded change C02-m3, kernel-checked): with an UNBUFFERED result channel the helper of an
+    abandoned call is reachable in the state "primitive returned, handler returned", and from there on — whatever
+    anybody does, for ever — it is still blocked in `errChan <- f()`. -/
+theorem C02_withctx_unbuffered_leaks :
+    GB.LTS.run (GB.WCtx.step GB.WCtx.unbuffered) GB.WCtx.init [.call, .ctxDone, .takeCtx, .close, .primRet 0]
+      = some GB.WCtx.leaked ∧
+    ∀ ls s, GB.LTS.run (GB.WCtx.step GB.WCtx.unbuffered) GB.WCtx.leaked ls = some s →
+      s.helpers = [(0, true)] ∧ GB.WCtx.step GB.WCtx.unbuffered s (.deliver 0) = none :=
+  ⟨GB.WCtx.leaked_reached, GB.WCtx.leaked_forever⟩
+
+/-- Negative witness (kernel-checked): with ONE channel shared by the calls of a stream, the result of an abandoned
+    call 0 is returned by the later call 1. -/
+theorem C02_withctx_shared_crosstalk :
+    (GB.LTS.run (GB.WCtx.step GB.WCtx.shared) GB.WCtx.init
+      [.call, .ctxDone, .takeCtx, .primRet 0, .deliver 0, .call, .recvResult]).map (·.got) = some [(1, 0)] := by
+  decide
+
+/-- Facts tie (regenerated from proxy.go, webbridge/http.go, grpcadapter/stream.go, grpcadapter/conn.go): every
+    withCtx helper makes its result channel inside the call with capacity 1, its goroutine is exactly
+    `errChan <- f()`, its select has exactly the two cases ctx.Done / receive from that channel; only the
+    AdaptedClientStream one calls `s.Close()` in the ctx.Done branch; Close is `s.closeFunc()` and closeFunc is
+    `sync.OnceFunc(cancel)` of a `context.WithCancel`. -/
+theorem C02_facts_withctx_shape :
+    GB.Generated.withCtxCap =
+      [("grpcServerStream.withCtx", 1), ("webbridge.withCtx", 1), ("AdaptedClientStream.withCtx", 1)] ∧
+    GB.Generated.withCtxLocalChan.all (·.2) = true ∧ GB.Generated.withCtxLocalChan.length = 3 ∧
+    GB.Generated.withCtxOneSend.all (·.2) = true ∧ GB.Generated.withCtxOneSend.length = 3 ∧
+    GB.Generated.withCtxSelect.all (fun x => decide (x.2 = ["ctxDone", "recvErrChan"])) = true ∧
+    GB.Generated.withCtxSelect.length = 3 ∧
+    GB.Generated.withCtxDoneCalls =
+      [("grpcServerStream.withCtx", ["rpcutil.ContextError", "ctx.Err"]),
+       ("webbridge.withCtx", ["rpcutil.ContextError", "ctx.Err"]),
+       ("AdaptedClientStream.withCtx", ["s.Close", "rpcutil.ContextError", "ctx.Err"])] ∧
+    GB.Generated.clientStreamClose =
+      ["Close: s.closeFunc()", "cancel: context.WithCancel", "closeFunc: sync.OnceFunc(cancel)"] := by
+  decide
+
+/-- The parameters of the helper model, taken from the regenerated facts (`i` = index of the wrapper in the fact
+    lists: 0 proxy grpcServerStream, 1 webbridge, 2 AdaptedClientStream). -/
+def C02_withCtxParams (i : Nat) (stop : Bool) : GB.WCtx.Params :=
+  { cap := ((GB.Generated.withCtxCap.map (·.2))[i]?).getD 0,
+    fresh := ((GB.Generated.withCtxLocalChan.map (·.2))[i]?).getD false &&
+             ((GB.Generated.withCtxOneSend.map (·.2))[i]?).getD false,
+    closeOnDone := ((GB.Generated.withCtxDoneCalls.map (fun x => x.2.contains "s.Close"))[i]?).getD false,
+    stopAfterCtx := stop }
+
+/-- …so the theorems above apply to the three wrappers as they are in the repository now (no hypothesis left
+    except the environment law): never blocked on the result channel, no cross-talk, and — the outgoing stream —
+    an abandoned Recv/Send closes the stream. -/
+theorem C02_withctx_repo (i : Nat) (hi : i < 3) (stop : Bool) (s : GB.WCtx.State)
+    (hr : GB.WCtx.Reachable (C02_withCtxParams i stop) s) :
+    (∀ k, (k, true) ∈ s.helpers → (GB.WCtx.step (C02_withCtxParams i stop) s (.deliver k)).isSome = true) ∧
+    (∀ g ∈ s.got, g.1 = g.2) ∧
+    (s.released = true → ∃ ls s', GB.LTS.run (GB.WCtx.step (C02_withCtxParams i stop)) s ls = some s' ∧
+        s'.helpers = [] ∧ ls.length ≤ 2 * s.helpers.length) ∧
+    (C02_withCtxParams 2 stop).closeOnDone = true := by
+  have hf : (C02_withCtxParams i stop).fresh = true := by
+    have : ∀ j, j < 3 → (C02_withCtxParams j stop).fresh = true := by cases stop <;> decide
+    exact this i hi
+  have hc : 1 ≤ (C02_withCtxParams i stop).cap := by
+    have : ∀ j, j < 3 → 1 ≤ (C02_withCtxParams j stop).cap := by cases stop <;> decide
+    exact this i hi
+  refine ⟨fun k hk => C02_withctx_never_blocks _ hf hc s hr k hk, (C02_withctx_no_crosstalk _ hf s hr).1, ?_, by cases stop <;> decide⟩
+  intro hrel
+  obtain ⟨ls, s', h1, h2, h3, _⟩ := C02_withctx_drains _ hf hc s hr hrel
+  exact ⟨ls, s', h1, h2, h3⟩
+
+/-! ### Round 5 (b): `Close` of the outgoing stream — exactly once, and it releases what is still pending -/
+
+/-- In every run of Forward (all kinds, peers, faults, interleavings) outgoing.Close() is called at most once, never
+    without a stream; and once Forward has returned it has been called EXACTLY once iff the stream was created. -/
+theorem C02_close_exactly_once (p : Params) (tr : List (Label M E)) (s : State M E) (h : Run p tr s) :
+    closeCount tr ≤ 1 ∧ (closeCount tr = 1 → streamOpened tr = true) ∧
+    (isDone s = true → closeCount tr = if streamOpened tr = true then 1 else 0) := by
+  have C := cinv_run h
+  have S := h.sinv
+  have ho := streamOpened_eq tr
+  refine ⟨?_, ?_, ?_⟩
+  · rw [C.cnt]; split <;> omega
+  · intro h1
+    rw [ho, C.opened]
+    rw [C.cnt] at h1
+    cases hout : s.out <;> simp [hout] at h1 ⊢
+  · intro hd
+    have hnc : s.out ≠ .opened := by
+      unfold isDone at hd
+      cases hm : s.main <;> simp [hm] at hd
+      exact S.out_closed (by simp [hm])
+    rw [ho, C.opened, C.cnt]
+    cases hout : s.out <;> simp [hout] at hnc ⊢
+
+/-- After Forward has returned every outgoing operation still pending is released: Forward called Close exactly
+    once (`C02_close_exactly_once`; Close = label `close` of the helper model with the AdaptedClientStream
+    parameters), the stream's cancel func has run exactly once, and from ANY state of the outgoing stream's helper
+    model in which that has happened the helpers of abandoned Recv/Send calls drain by own steps (rank ≤ 2 per
+    helper) — in every interleaving, see `C02_withctx_release_all_schedules`. -/
+theorem C02_close_releases_outgoing (p : Params) (tr : List (Label M E)) (s : State M E) (h : Run p tr s)
+    (hd : isDone s = true) (ho : streamOpened tr = true) (stop : Bool) :
+    closeCount tr = 1 ∧
+    ∀ a : GB.WCtx.State, GB.WCtx.Reachable (C02_withCtxParams 2 stop) a → a.cancels = 1 →
+      a.released = true ∧
+      ∃ ls a', GB.LTS.run (GB.WCtx.step (C02_withCtxParams 2 stop)) a ls = some a' ∧ a'.helpers = [] ∧
+        ls.length ≤ 2 * a.helpers.length ∧ ls.all GB.WCtx.helperLabel = true := by
+  refine ⟨by rw [(C02_close_exactly_once p tr s h).2.2 hd, ho]; rfl, ?_⟩
+  intro a ha hc1
+  have hf : (C02_withCtxParams 2 stop).fresh = true := by cases stop <;> decide
+  have hc : 1 ≤ (C02_withCtxParams 2 stop).cap := by cases stop <;> decide
+  have hrel := (C02_withctx_cancel_once _ hf a ha).2.2 hc1
+  exact ⟨hrel, C02_withctx_drains _ hf hc a ha hrel⟩
+
+/-! ### Round 5 (c): every way out of the four web handlers and of Forward (GB/C02/Paths.lean) -/
+
+/-- Facts tie: the programs (top-level statements as defer / ret / do tokens) regenerated from the sources. A moved
+    defer, a new early return, a dropped finish()/close(done)/wg.Wait() changes this list. -/
+theorem C02_facts_programs :
+    GB.Generated.c02Programs =
+      [("TranscodedHTTPBridge.ServeHTTP",
+          [("ret", []), ("ret", ["respond"]), ("ret", ["respond", "respond"]), ("do", ["forward"]), ("do", ["finish"]),
+           ("do", ["respond"])]),
+       ("GRPCWebBridge.ServeHTTP", [("ret", ["respond"]), ("do", ["forward"]), ("do", ["finish"]), ("do", ["respond"])]),
+       ("TranscodedWebSocketBridge.ServeHTTP",
+          [("ret", []), ("do", ["upgrade"]), ("ret", ["respond"]), ("defer", ["netClose"]), ("do", ["goReadLoop"]),
+           ("do", ["forward"]), ("do", ["sendClose"]), ("do", ["closeDone"]), ("do", ["wgWait"])]),
+       ("GRPCWebSocketBridge.ServeHTTP",
+          [("do", ["upgrade"]), ("ret", ["respond"]), ("defer", ["netClose"]), ("do", ["goReadLoop"]),
+           ("defer", ["closeDone", "wgWait"]), ("ret", []), ("ret", ["sendTrailer"]), ("do", ["forward"]),
+           ("do", ["sendTrailer"])]),
+       ("ProxyForwarder.Forward",
+          [("defer", ["wgWait"]), ("defer", ["cancel"]), ("ret", []), ("defer", ["outClose"]), ("do", ["goPump"]),
+           ("ret", [])])] ∧
+    GB.Generated.c02StreamSites = ["grpcadapter/forwarder.go:stream"] := by
+  decide
+
+/-- The resource-release clause on EVERY way out of the four web entry points (normal end, forwarding error,
+    client gone — these three leave through the end of the function —, and each early return before or after the
+    resources exist), computed from the regenerated programs:
+    * WebSocket handlers: a way out that started ReadLoop executes close(stream.done) exactly once, then wg.Wait()
+      exactly once, then closes the connection as its last action; Forward runs at most once, after `go ReadLoop` and
+      before close(done); a way out that did not start ReadLoop has no Forward, no close(done), no wg.Wait();
+      inside the ReadLoop goroutine cancel() precedes wg.Done(), so after wg.Wait() the handler's ctx is cancelled.
+    * HTTP handlers: Forward at most once; after it finish() exactly once and before the handler writes anything;
+      the early returns come before Forward (no outgoing stream exists: `c02StreamSites` — streams are created in
+      forwarder.go only, and closed there exactly once: `C02_close_exactly_once`).
+    * Forward: every way out ends with cancel() then wg.Wait(); after the stream exists outgoing.Close() comes first.
+    The order close(done) → wg.Wait() is what `C02_ws_epilogue_terminates` needs; `C02_cleanup` gives the
+    ctx-cancelled / pumps-gone part inside Forward. -/
+theorem C02_release_on_every_path :
+    (GB.Paths.paths (GB.Paths.lookup "TranscodedHTTPBridge.ServeHTTP" GB.Generated.c02Programs)).all GB.Paths.httpPathOK = true ∧
+    (GB.Paths.paths (GB.Paths.lookup "GRPCWebBridge.ServeHTTP" GB.Generated.c02Programs)).all GB.Paths.httpPathOK = true ∧
+    (GB.Paths.paths (GB.Paths.lookup "TranscodedWebSocketBridge.ServeHTTP" GB.Generated.c02Programs)).all GB.Paths.wsPathOK = true ∧
+    (GB.Paths.paths (GB.Paths.lookup "GRPCWebSocketBridge.ServeHTTP" GB.Generated.c02Programs)).all GB.Paths.wsPathOK = true ∧
+    (GB.Paths.paths (GB.Paths.lookup "ProxyForwarder.Forward" GB.Generated.c02Programs)).all GB.Paths.fwdPathOK = true ∧
+    ((GB.Generated.c02GoBodies.filter (fun x => decide (x.1 = "TranscodedWebSocketBridge.ServeHTTP") ||
+        decide (x.1 = "GRPCWebSocketBridge.ServeHTTP"))).all
+      (fun x => decide (x.2.length = 1) && x.2.all GB.Paths.goBodyOK)) = true ∧
+    (GB.Paths.paths (GB.Paths.lookup "TranscodedHTTPBridge.ServeHTTP" GB.Generated.c02Programs)).length = 4 ∧
+    (GB.Paths.paths (GB.Paths.lookup "GRPCWebBridge.ServeHTTP" GB.Generated.c02Programs)).length = 2 ∧
+    (GB.Paths.paths (GB.Paths.lookup "TranscodedWebSocketBridge.ServeHTTP" GB.Generated.c02Programs)).length = 3 ∧
+    (GB.Paths.paths (GB.Paths.lookup "GRPCWebSocketBridge.ServeHTTP" GB.Generated.c02Programs)).length = 4 := by
+  decide
+
+/-- Non-vacuity / what the computed ways out look like (normal way out of each handler). -/
+theorem C02_paths_examples :
+    (GB.Paths.paths (GB.Paths.lookup "TranscodedWebSocketBridge.ServeHTTP" GB.Generated.c02Programs)).getLast? =
+      some ["upgrade", "goReadLoop", "forward", "sendClose", "closeDone", "wgWait", "netClose"] ∧
+    (GB.Paths.paths (GB.Paths.lookup "GRPCWebSocketBridge.ServeHTTP" GB.Generated.c02Programs)) =
+      [["upgrade", "respond"], ["upgrade", "goReadLoop", "closeDone", "wgWait", "netClose"],
+       ["upgrade", "goReadLoop", "sendTrailer", "closeDone", "wgWait", "netClose"],
+       ["upgrade", "goReadLoop", "forward", "sendTrailer", "closeDone", "wgWait", "netClose"]] ∧
+    (GB.Paths.paths (GB.Paths.lookup "ProxyForwarder.Forward" GB.Generated.c02Programs)) =
+      [["cancel", "wgWait"], ["goPump", "outClose", "cancel", "wgWait"], ["goPump", "outClose", "cancel", "wgWait"]] ∧
+    -- a handler with the defers swapped is rejected
+    GB.Paths.wsPathOK ["upgrade", "goReadLoop", "forward", "wgWait", "closeDone", "netClose"] = false ∧
+    GB.Paths.httpPathOK ["forward", "respond", "finish"] = false := by
   decide
